@@ -13,6 +13,7 @@ structure S where
   acq : List (String × Nat) := []                   -- message-lock acquisitions in order
   rets : List ((String × Nat) × String) := []
   wire : String := ""
+  nb : Bool := false          -- non-blocking queue: refused writes leave a message cut short (whole chunks) or absent
   deriving Inhabited
 
 def lookupCur (s : S) (t : String) : Nat := ((s.cur.find? (·.1 == t)).map (·.2)).getD 0
@@ -27,11 +28,29 @@ def parseFrames : Nat → List Char → List ((String × Nat) × List Char) → 
     | some f =>
       (parseFrames fuel (w.drop f.2.length) (frames.filter (·.1 != f.1))).map (f.1 :: ·)
 
+/-- length of the longest common prefix -/
+def lcp : List Char → List Char → Nat
+  | a :: as, b :: bs => if a == b then lcp as bs + 1 else 0
+  | _, _ => 0
+
+/-- non-blocking mode: every message is on the wire whole, as a proper prefix of its frame (its write was refused
+    half way) or not at all, each at most once and never resumed. Every frame begins with the same byte, which does
+    not occur inside a frame, so a cut-short frame ends exactly where the common prefix with its frame ends; which
+    message a short prefix belongs to is decided by search. -/
+def parseNB : Nat → List Char → List ((String × Nat) × List Char) → Bool
+  | 0, _, _ => false
+  | _, [], _ => true
+  | fuel+1, w, frames =>
+    frames.any (fun f =>
+      let k := lcp f.2 w
+      let k := k - k % 2              -- whole bytes (two hex digits each)
+      k > 0 && parseNB fuel (w.drop k) (frames.filter (·.1 != f.1)))
+
 def tidNum (t : String) : Nat := ((t.drop 1).toString.toNat?).getD 0
 
 def handle (s : S) : List String → S × String
   | ["new"] => ({}, "ok")
-  | "cfg" :: _ => (s, "ok")
+  | "cfg" :: rest => ({ s with nb := rest.contains "nb=1" }, "ok")
   | "thr" :: _ => (s, "ok")
   | ["msg", t, i, _kind, hex] => ({ s with frames := s.frames ++ [((t, i.toNat?.getD 0), hex)] }, "ok")
   | "step" :: tid :: point :: _case :: evs =>
@@ -46,6 +65,10 @@ def handle (s : S) : List String → S × String
   | "end" :: how :: _ =>
     if how.startsWith "stuck" then (s, s!"diff a goroutine blocked outside the controller's view ({how}): the instrumentation does not cover this code") else
     if how != "quiescent" then (s, s!"specviol execution does not come to rest: {how}") else
+    if s.nb then
+      (if parseNB (s.frames.length + 1) s.wire.toList (s.frames.map (fun f => (f.1, f.2.toList))) then (s, "ok nonblocking")
+       else (s, s!"specviol bytes of different messages interleave on the wire (non-blocking queue: it does not parse into whole or cut-short frames, each at most once): {s.wire.take 240}"))
+    else
     if s.rets.any (·.2 != "ok") then (s, "diff a write did not succeed in a scenario without failures") else
     if s.rets.length != s.frames.length then (s, "diff not every write returned") else
     -- the model, driven in the order of the lock acquisitions
